@@ -221,6 +221,27 @@ def oracle_encode_case(kind, ids, sid_set):
     return None
 
 
+def oracle_reencode_case(kind, ids1, ids2):
+    """The same cell object encoded twice with its reference ids changed in between: the second record must carry
+    the second set of ids (a record is a function of the cell's current attributes, not of an earlier encoding)."""
+    from numbers_parser.cell import _unpack_decimal128
+    c, payload = make_cell(kind, ids1, False)
+    try:
+        c._to_buffer()
+        for a in ID_ATTRS:
+            setattr(c, a, ids2.get(a))
+        buf = c._to_buffer()
+    except Exception as e:  # noqa: BLE001
+        return ("encode-raises", f"_to_buffer raised {type(e).__name__}: {e}")
+    got = impl_decode(bytes(buf))
+    if isinstance(got, str):
+        return ("decode-raises", f"_from_storage(_to_buffer(c)) raised {got}")
+    bad = [a for a in ID_ATTRS if got.get(a) != ids2.get(a)]
+    if bad:
+        return ("re-encode-stale", f"kind={kind}: ids {ids1} then {ids2}: second record reads back { {a: got.get(a) for a in bad} }")
+    return None
+
+
 def oracle_decode_case(t, extras, vals):
     from numbers_parser.cell import _unpack_decimal128
     buf = py_ref_encode(t, extras, vals)
@@ -407,6 +428,16 @@ def run(ctx: Ctx) -> int:
         r = oracle_encode_case(kind, ids, sid)
         if r:
             ctx.oracle_fail(r[0], {"op": "encode", "kind": kind, "ids": ids, "sid": sid}, r[1])
+    for k in range(400 if ctx.quick else 4000):
+        kind = KINDS[k % len(KINDS)]
+        ids1 = {a: 100 + i for i, a in enumerate(ID_ATTRS) if ctx.rng.random() < 0.5}
+        ids2 = {a: 900 + i for i, a in enumerate(ID_ATTRS) if ctx.rng.random() < 0.5}
+        if kind == "richtext":
+            ids1["_rich_id"], ids2["_rich_id"] = 7, 8
+        ctx.count("oracle-re-encode")
+        r = oracle_reencode_case(kind, ids1, ids2)
+        if r:
+            ctx.oracle_fail(r[0], {"op": "reencode", "kind": kind, "ids1": ids1, "ids2": ids2}, r[1])
     for t, ex, vals in dec:
         if t in (5, 6, 7, 1, 4, 11, 255):
             continue  # kind/payload mismatches are covered by the correspondence stream only
@@ -439,7 +470,9 @@ def replay(path: str) -> int:
     d = json.loads(open(path).read())
     if d.get("kind") == "failing-input":
         case = d["case"]
-        if case["op"] == "encode":
+        if case["op"] == "reencode":
+            r = oracle_reencode_case(case["kind"], case["ids1"], case["ids2"])
+        elif case["op"] == "encode":
             r = oracle_encode_case(case["kind"], case["ids"], case["sid"])
         else:
             r = oracle_decode_case(case["type"], case["extras"], [None if v is None else bytes.fromhex(v) for v in case["vals"]])
